@@ -167,3 +167,23 @@ Theorem C03_oracle_sound : forall k n docs nows,
      c03_encode_verdict docs ds = COk /\ c03_encode_ok docs ds = true).
 Proof. exact OracleSoundC03.c03_oracle_sound. Qed.
 Print Assumptions C03_oracle_sound.
+
+(* ---- the samples AS DOCUMENTS: c03_encode_verdict compares metric vectors and the first
+   sample of each chunk; the additional oracle c03_encode_docs_ok reads every sample of the
+   specification's own decoding back as a document (table_docs: the reference document of
+   its chunk filled with its values, non-metric leaves removed) and compares with the
+   inputs treated likewise (self_fill), so a sample filed under a chunk whose reference
+   document has other key names and as many metrics is refused
+   (OracleSoundC03Docs.docs_oracle_sensitive).  It too answers true on what the MODEL emits,
+   under the hypotheses of C03_oracle_sound: documents of one schema are filled alike
+   (OracleSoundC03Docs.spec_fill_doc_same_skeleton) ---- *)
+From FV.Proofs Require OracleSoundC03Docs.
+
+Theorem C03_oracle_docs_sound : forall k n docs nows,
+  compressing k = true -> 1 <= n < 2 ^ 31 -> inputs_ok docs nows -> fits k n docs ->
+  let ds := emitted (snd (fst (emit triv_deflate k n docs nows))) in
+  exists groups,
+    concat groups = docs /\ Forall2 (canon_of triv_deflate) ds groups /\
+    (Forall group_small groups -> c03_encode_docs_ok docs ds = true).
+Proof. exact OracleSoundC03Docs.c03_oracle_docs_sound. Qed.
+Print Assumptions C03_oracle_docs_sound.
